@@ -166,32 +166,68 @@ Definition round_half_even (y : Q) : Z :=
   match Qcompare fr (1 # 2) with
   | Lt => fl | Gt => (fl + 1)%Z | Eq => if Z.even fl then fl else (fl + 1)%Z
   end.
-Definition round_sig2 (x : Q) : Q :=
+Definition round_sig2 (x : Q) : Q :=          (* the exact decimal: x to 2 significant digits, ties to even *)
   if Qeq_bool x 0 then 0%Q
   else let '(y, e) := norm10 700 (Qabs x) 0%Z in
        let r := (inject_Z (round_half_even y) * Qpower 10 e)%Q in
        Qred (if Qlt_bool x 0 then - r else r)%Q.
 
+(* IEEE double arithmetic where the code depends on it: the nearest double (ties to even; no subnormals /
+   overflow in the range of the inputs) *)
+Definition round53 (q : Q) : Q :=
+  if Qeq_bool q 0 then 0%Q
+  else let a := Qabs q in
+       let e0 := (Z.log2 (Qnum a) - Z.log2 (Zpos (Qden a)) - 52)%Z in
+       let s := (a / Qpower 2 e0)%Q in
+       let e := if Qlt_bool s (Qpower 2 52) then (e0 - 1)%Z
+                else if Qle_bool (Qpower 2 53) s then (e0 + 1)%Z else e0 in
+       let m := round_half_even (a / Qpower 2 e) in
+       let r := (inject_Z m * Qpower 2 e)%Q in
+       Qred (if Qlt_bool q 0 then - r else r)%Q.
+
+(* number of decimals passed to round(): -floor(log10 |x|) + (2 - 1) *)
+Definition sig2_decimals (x : Q) : Z := let '(_, e) := norm10 700 (Qabs x) 0%Z in (- e)%Z.
+
+(* Python's float.__round__ is correctly rounded: the double nearest to the exact decimal *)
+Definition py_round_sig2 (x : Q) : Q := if Qeq_bool x 0 then 0%Q else round53 (round_sig2 x).
+
+(* numpy.float64.__round__(d) is NOT: rint(x * 10^d) / 10^d evaluated in double arithmetic (d >= 0),
+   rint(x / 10^-d) * 10^-d otherwise *)
+Definition np_round (x : Q) (d : Z) : Q :=
+  let f := Qpower 10 (Z.abs d) in
+  if (0 <=? d)%Z then round53 (inject_Z (round_half_even (round53 (x * f))) / f)
+  else round53 (inject_Z (round_half_even (round53 (x / f))) * f).
+Definition np_round_sig2 (x : Q) : Q := if Qeq_bool x 0 then 0%Q else np_round x (sig2_decimals x).
+
 Definition zero_limit : Q := (1152921504606847 # 1152921504606846976)%Q.   (* the double 0.001 *)
+(* _is_near_target(x, target, ...): x comes out of a pandas Series (numpy.float64), target is a Python float *)
 Definition near_target (x target : Q) : bool :=
   if Qeq_bool target 0 then Qlt_bool (Qabs x) (Qabs zero_limit)
+  else Qeq_bool (np_round_sig2 x) (py_round_sig2 target).
+(* documented: within 0.001 of a zero bound, equal to a non-zero bound to 2 significant digits *)
+Definition near_target_spec (x target : Q) : bool :=
+  if Qeq_bool target 0 then Qlt_bool (Qabs x) (Qabs zero_limit)
   else Qeq_bool (round_sig2 x) (round_sig2 target).
-Definition close_to_bound (p : param) (v : Q) : bool :=
-  (match p_lower p with Some lo => near_target v lo | None => false end)
-  || (match p_upper p with Some up => near_target v up | None => false end).
+Definition close_to_bound_gen (near : Q -> Q -> bool) (p : param) (v : Q) : bool :=
+  (match p_lower p with Some lo => near v lo | None => false end)
+  || (match p_upper p with Some up => near v up | None => false end).
+Definition close_to_bound := close_to_bound_gen near_target.
+Definition close_to_bound_spec := close_to_bound_gen near_target_spec.
 (* check_parameters_near_bounds(model, values).any(); KeyError for a name that is not a model parameter *)
-Fixpoint near_bounds_any (ps : list param) (vals : list (id * Q)) : res bool :=
+Fixpoint near_bounds_any_gen (near : Q -> Q -> bool) (ps : list param) (vals : list (id * Q)) : res bool :=
   match vals with
   | [] => Ok false
   | (n, v) :: tl =>
       match find (fun p => Pos.eqb (p_name p) n) ps with
       | None => Err EKey
-      | Some p => match near_bounds_any ps tl with
+      | Some p => match near_bounds_any_gen near ps tl with
                   | Err e => Err e
-                  | Ok b => Ok (close_to_bound p v || b)
+                  | Ok b => Ok (close_to_bound_gen near p v || b)
                   end
       end
   end.
+Definition near_bounds_any := near_bounds_any_gen near_target.
+Definition near_bounds_any_spec := near_bounds_any_gen near_target_spec.
 
 (* ---- the environment set up by is_strictness_fulfilled before eval() *)
 Definition uses_rse_sub (e : sexpr) : bool := uses e S_rse_theta || uses e S_rse_omega || uses e S_rse_sigma.
@@ -257,14 +293,19 @@ Fixpoint seval (rebound : bool) (ps : list param) (r : resrec) (e : sexpr) : res
   | SOr a b => match seval rebound ps r a with Ok true => Ok true | Ok false => seval rebound ps r b | Err x => Err x end
   end.
 
-(* truth value of is_strictness_fulfilled(model, results, strictness); [None] is the empty string *)
-Definition is_strictness_fulfilled (s : option sexpr) (c : cand) : res bool :=
+(* the strictness argument: "" | an expression of the documented grammar | a string that one of the two
+   regular-expression checks rejects (unknown word, unallowed operator character) *)
+Inductive strictness := StEmpty | StExpr (e : sexpr) | StInvalid.
+
+(* truth value of is_strictness_fulfilled(model, results, strictness) *)
+Definition is_strictness_fulfilled (s : strictness) (c : cand) : res bool :=
   match c_ofv c with
   | None => Ok false
   | Some _ =>
       match s with
-      | None => Ok true
-      | Some e =>
+      | StEmpty => Ok true
+      | StInvalid => Err EValue
+      | StExpr e =>
           match setup_error e (c_res c) with
           | Some x => Err x
           | None => seval (uses_rse_sub e) (c_params c) (c_res c) e
@@ -278,6 +319,10 @@ Definition spec_bool_value (ps : list param) (r : resrec) (n : sname) : res bool
   match n with
   | S_fzg_omega => Ok (any_zero (rows_of ps is_omega g) || any_null (rows_of ps is_omega g))
   | S_fzg_sigma => Ok (any_zero (rows_of ps is_sigma g) || any_null (rows_of ps is_sigma g))
+  | S_enb => near_bounds_any_spec ps (olist (r_est r))
+  | S_enb_theta => near_bounds_any_spec ps (rows_of ps is_theta (olist (r_est r)))
+  | S_enb_omega => near_bounds_any_spec ps (rows_of ps is_omega (olist (r_est r)))
+  | S_enb_sigma => near_bounds_any_spec ps (rows_of ps is_sigma (olist (r_est r)))
   | _ => bool_value ps r n
   end.
 Fixpoint spec_seval (ps : list param) (r : resrec) (e : sexpr) : res bool :=
@@ -288,12 +333,13 @@ Fixpoint spec_seval (ps : list param) (r : resrec) (e : sexpr) : res bool :=
   | SAnd a b => match spec_seval ps r a with Ok true => spec_seval ps r b | Ok false => Ok false | Err x => Err x end
   | SOr a b => match spec_seval ps r a with Ok true => Ok true | Ok false => spec_seval ps r b | Err x => Err x end
   end.
-Definition spec_strictness (s : option sexpr) (c : cand) : res bool :=
+Definition spec_strictness (s : strictness) (c : cand) : res bool :=
   match c_ofv c with
   | None => Ok false
   | Some _ => match s with
-              | None => Ok true
-              | Some e => match setup_error e (c_res c) with
+              | StEmpty => Ok true
+              | StInvalid => Err EValue
+              | StExpr e => match setup_error e (c_res c) with
                           | Some x => Err x
                           | None => spec_seval (c_params c) (c_res c) e
                           end
@@ -308,6 +354,13 @@ Definition g_grad_nan_rows (e : sexpr) (c : cand) : bool :=
   (negb (uses e S_fzg_omega) || Bool.eqb (any_null (rows_of ps is_theta g)) (any_null (rows_of ps is_omega g)))
   && (negb (uses e S_fzg_sigma) || Bool.eqb (any_null (rows_of ps is_theta g)) (any_null (rows_of ps is_sigma g))).
 
+(* the estimate (numpy.float64) and its bound (Python float) are rounded by different algorithms *)
+Definition g_near_round (e : sexpr) (c : cand) : bool :=
+  negb (uses_enb_any e)
+  || forallb (fun nv => match find (fun p => Pos.eqb (p_name p) (fst nv)) (c_params c) with
+                        | Some p => Bool.eqb (close_to_bound p (snd nv)) (close_to_bound_spec p (snd nv))
+                        | None => true end) (olist (r_est (c_res c))).
+
 (* ------------------------------------------------------------------ criteria, tests, ranking *)
 Inductive bictype := BMixed | BFixed | BRandom | BIiv.
 Inductive rtype := RT_ofv | RT_aic | RT_bic (t : option bictype) | RT_lrt | RT_unknown.
@@ -318,7 +371,7 @@ Record config := mkConfig {
   cf_cutoff : cutoff_t;
   cf_pen : option (list Q);          (* penalties, base first *)
   cf_parent : list (id * id);        (* parent_dict: child name -> parent name; [] = not given *)
-  cf_strict : option sexpr
+  cf_strict : strictness
 }.
 
 Record row := mkRow { w_name : id; w_delta : option Q; w_value : option Q; w_rank : option nat }.
@@ -328,6 +381,9 @@ Definition ominus (a : option Q) (b : Q) : option Q := match a with Some x => So
 
 Fixpoint lookup {A} (n : id) (l : list (id * A)) : option A :=
   match l with [] => None | (k, v) :: tl => if Pos.eqb k n then Some v else lookup n tl end.
+
+Definition alpha_more : Q := (3602879701896397 # 72057594037927936)%Q.      (* the double 0.05 *)
+Definition alpha_fewer : Q := (5764607523034235 # 576460752303423488)%Q.    (* the double 0.01 *)
 
 Section Oracles.
 Variable logf : positive -> Q.               (* math.log(n) *)
@@ -416,8 +472,7 @@ Record entry := mkEntry { e_c : cand; e_value : Q; e_delta : option Q }.
 
 Definition alpha_for (df : Z) : res Q :=
   match cf_cutoff cf with
-  | CoNone => Ok (if (0 <=? df)%Z then (3602879701896397 # 72057594037927936)%Q     (* the double 0.05 *)
-                  else (5764607523034235 # 576460752303423488)%Q)                   (* the double 0.01 *)
+  | CoNone => Ok (if (0 <=? df)%Z then alpha_more else alpha_fewer)
   | CoPair a b => Ok (if (0 <=? df)%Z then a else b)
   | CoNum q => Ok q
   end.
@@ -526,7 +581,7 @@ Definition precheck (models : list cand) : option err :=
 Definition get_ref (base : cand) : res (option Q) :=
   match get_rankval base with
   | Err e => Err e
-  | Ok ref0 => Ok (match cf_pen cf with Some _ => oplus ref0 (pen_at 0) | None => ref0 end)
+  | Ok ref0 => Ok (oplus ref0 (pen_at 0))     (* `if penalties: ref_value += penalties[0]`; pen_at is 0 without penalties *)
   end.
 
 Definition rank_models (base : cand) (models : list cand) : res (list row) :=
